@@ -11,69 +11,187 @@ import (
 type Context interface {
 	Done() *rt.Chan[struct{}]
 	Err() error
+	Value(key any) any
+	Deadline() (deadline time.Time, ok bool)
 }
 
 type CancelFunc func()
+type CancelCauseFunc func(cause error)
 
 var Canceled = errors.New("context canceled")
 var DeadlineExceeded = errors.New("context deadline exceeded")
 
 type bg struct{}
 
-func (bg) Done() *rt.Chan[struct{}] { return nil }
-func (bg) Err() error               { return nil }
+func (bg) Done() *rt.Chan[struct{}]    { return nil }
+func (bg) Err() error                  { return nil }
+func (bg) Value(any) any               { return nil }
+func (bg) Deadline() (time.Time, bool) { return time.Time{}, false }
 
 func Background() Context { return bg{} }
 
+// TODO returns an empty context, like Background.
+func TODO() Context { return bg{} }
+
 type cctx struct {
+	parent   Context
 	done     *rt.Chan[struct{}]
 	err      error
+	cause    error
 	started  bool
 	children []*cctx
+	after    []*afterFunc
+	deadline int64 // virtual ns, 0 = none
 }
 
 func (c *cctx) Done() *rt.Chan[struct{}] { return c.done }
 func (c *cctx) Err() error               { return c.err }
+func (c *cctx) Value(key any) any        { return c.parent.Value(key) }
+func (c *cctx) Deadline() (time.Time, bool) {
+	if c.deadline != 0 {
+		return time.Unix(0, 0).UTC().Add(time.Duration(c.deadline)), true
+	}
+	return c.parent.Deadline()
+}
 
-func (c *cctx) cancel() { c.cancelWith(Canceled) }
+func (c *cctx) cancel() { c.cancelWith(Canceled, nil) }
 
-func (c *cctx) cancelWith(err error) {
+func (c *cctx) cancelWith(err, cause error) {
 	if c.started {
 		return
 	}
 	c.started = true
 	rt.Close(c.done) // the close and the error become visible in the same atomic step
 	c.err = err
+	if cause == nil {
+		cause = err
+	}
+	c.cause = cause
 	for _, ch := range c.children {
-		ch.cancelWith(err)
+		ch.cancelWith(err, cause)
+	}
+	for _, a := range c.after {
+		a.fire()
 	}
 }
 
-// WithTimeout cancels on the virtual clock.
-func WithTimeout(parent Context, d time.Duration) (Context, CancelFunc) {
-	c, cancel := WithCancel(parent)
-	tm := rt.After(int64(d), struct{}{})
-	rt.Go("context.WithTimeout", func() {
-		switch rt.Select(false, rt.RecvCase(tm), rt.RecvCase(c.Done())) {
-		case 0:
-			c.(*cctx).cancelWith(DeadlineExceeded)
+// cancelCtx finds the nearest cancellable ancestor (value contexts are transparent).
+func cancelCtx(p Context) *cctx {
+	for {
+		switch v := p.(type) {
+		case *cctx:
+			return v
+		case *vctx:
+			p = v.Context
+		case withoutCancel:
+			return nil
+		default:
+			return nil
 		}
-	})
-	return c, cancel
+	}
 }
 
-// TODO returns an empty context, like Background.
-func TODO() Context { return bg{} }
-
 func WithCancel(parent Context) (Context, CancelFunc) {
-	c := &cctx{done: rt.MakeChan[struct{}](0)}
+	c := &cctx{parent: parent, done: rt.MakeChan[struct{}](0)}
 	rt.MarkDone(c.done)
-	if p, ok := parent.(*cctx); ok {
+	if p := cancelCtx(parent); p != nil {
 		if p.started {
-			c.cancel()
+			c.cancelWith(p.err, p.cause)
 		} else {
 			p.children = append(p.children, c)
 		}
 	}
 	return c, c.cancel
+}
+
+func WithCancelCause(parent Context) (Context, CancelCauseFunc) {
+	c, _ := WithCancel(parent)
+	return c, func(cause error) { c.(*cctx).cancelWith(Canceled, cause) }
+}
+
+// Cause returns the cause of the cancellation of the nearest cancellable context.
+func Cause(c Context) error {
+	if p := cancelCtx(c); p != nil {
+		return p.cause
+	}
+	return nil
+}
+
+// WithTimeout cancels on the virtual clock.
+func WithTimeout(parent Context, d time.Duration) (Context, CancelFunc) {
+	c, cancel := WithCancel(parent)
+	c.(*cctx).deadline = rt.Now() + int64(d)
+	if d <= 0 {
+		c.(*cctx).cancelWith(DeadlineExceeded, nil)
+		return c, cancel
+	}
+	tm := rt.After(int64(d), struct{}{})
+	rt.Go("context.WithTimeout", func() {
+		switch rt.Select(false, rt.RecvCase(tm), rt.RecvCase(c.Done())) {
+		case 0:
+			c.(*cctx).cancelWith(DeadlineExceeded, nil)
+		}
+	})
+	return c, cancel
+}
+
+func WithDeadline(parent Context, t time.Time) (Context, CancelFunc) {
+	return WithTimeout(parent, t.Sub(time.Unix(0, 0).UTC().Add(time.Duration(rt.Now()))))
+}
+
+type vctx struct {
+	Context
+	key, val any
+}
+
+func (v *vctx) Value(key any) any {
+	if v.key == key {
+		return v.val
+	}
+	return v.Context.Value(key)
+}
+
+func WithValue(parent Context, key, val any) Context { return &vctx{parent, key, val} }
+
+type withoutCancel struct{ c Context }
+
+func (withoutCancel) Done() *rt.Chan[struct{}]    { return nil }
+func (withoutCancel) Err() error                  { return nil }
+func (w withoutCancel) Value(key any) any         { return w.c.Value(key) }
+func (withoutCancel) Deadline() (time.Time, bool) { return time.Time{}, false }
+
+func WithoutCancel(parent Context) Context { return withoutCancel{parent} }
+
+type afterFunc struct {
+	f       func()
+	stopped bool
+	fired   bool
+}
+
+func (a *afterFunc) fire() {
+	if a.stopped || a.fired {
+		return
+	}
+	a.fired = true
+	rt.Go("context.AfterFunc", a.f)
+}
+
+// AfterFunc runs f in its own simulated goroutine once ctx is done; stop reports whether it prevented that.
+func AfterFunc(ctx Context, f func()) (stop func() bool) {
+	a := &afterFunc{f: f}
+	p := cancelCtx(ctx)
+	switch {
+	case p == nil:
+	case p.started:
+		a.fire()
+	default:
+		p.after = append(p.after, a)
+	}
+	return func() bool {
+		if a.fired || a.stopped {
+			return false
+		}
+		a.stopped = true
+		return true
+	}
 }
